@@ -1,4 +1,5 @@
-"""Enums used as task parameter atoms (spec name me.E1 / me.E2)."""
+"""Enums used as task parameter atoms (spec names me.E1 ... me.E4).  E3 and E4 mix in a scalar type: their members
+are ints / strs as well (E3.ONE == 1, E4.A == 'a'), but as parameter values they are enum members."""
 import enum
 
 
@@ -9,3 +10,11 @@ class E1(enum.Enum):
 
 class E2(enum.Enum):
     A = 1
+
+
+class E3(enum.IntEnum):
+    ONE = 1
+
+
+class E4(str, enum.Enum):
+    A = 'a'
